@@ -26,6 +26,7 @@ type c20Case struct {
 	N       int    `json:"n"`       // draws (total or per generator)
 	Points  []int  `json:"points"`  // snapshot: draws before each snapshot/restore
 	Rounds  int    `json:"rounds"`  // fallback rounds
+	Fallback bool  `json:"fallback,omitempty"` // traces: instances use a fallback generator
 	Restore int    `json:"restore"` // snapshot: draws from the restored generator
 }
 
@@ -77,9 +78,21 @@ func c20Cases(tier string, seed uint64) []fw.Case {
 		c.Name = fmt.Sprintf("fallback/%dx%d/%d", fb, rounds/4, sh)
 		cs = append(cs, fw.MkCase("fallback", &c))
 	}
+	// one fallback generator drawn concurrently
+	for _, g := range []int{2, 4, 16, 32} {
+		c := c20Case{Kind: "fbconc", G: g, N: total / 5}
+		c.Name = fmt.Sprintf("fallback-concurrent/g%d/n%d", g, total/5)
+		cs = append(cs, fw.MkCase("fbconc", &c))
+	}
 	for sh := 0; sh < 4; sh++ {
 		c := c20Case{Kind: "traces", G: 12, N: 5}
 		c.Name = fmt.Sprintf("traces/%d", sh)
+		cs = append(cs, fw.MkCase("traces", &c))
+	}
+	// the same with every instance on the fallback generator (forked flows draw concurrently)
+	for sh := 0; sh < 2; sh++ {
+		c := c20Case{Kind: "traces", G: 12, N: 5, Fallback: true}
+		c.Name = fmt.Sprintf("traces-fallback/%d", sh)
 		cs = append(cs, fw.MkCase("traces", &c))
 	}
 	return fw.Number(cs)
@@ -204,6 +217,34 @@ func c20Run(c *c20Case, env *fw.Env, v *fw.V) {
 			v.Add("ids", len(all))
 			v.Add("restores", 1)
 		}
+	case "fbconc":
+		g := id.NewFallbackGenerator()
+		per := c.N / c.G
+		out := make([][]string, c.G)
+		var wg sync.WaitGroup
+		barrier := make(chan struct{})
+		for i := 0; i < c.G; i++ {
+			wg.Add(1)
+			go func(i int) {
+				defer wg.Done()
+				ids := make([]string, per)
+				<-barrier
+				for k := range ids {
+					ids[k] = g.New().String()
+				}
+				out[i] = ids
+			}(i)
+		}
+		close(barrier)
+		wg.Wait()
+		var all []string
+		for _, o := range out {
+			all = append(all, o...)
+		}
+		if d, n := dupStrings(all); n > 0 {
+			v.Violate("duplicate-id", "fallback-concurrent", "%d duplicate ids among %d drawn by %d goroutines from one fallback generator (first: %s)", n, len(all), c.G, d)
+		}
+		v.Add("ids", len(all))
 	case "fallback":
 		for r := 0; r < c.Rounds; r++ {
 			gens := make([]id.IGenerator, c.G)
@@ -249,7 +290,11 @@ func c20Run(c *c20Case, env *fw.Env, v *fw.V) {
 				go func() {
 					defer wg.Done()
 					var in *drive.Inst
-					in, err := drive.New(env.Label, defs, drive.Opts{OnTrace: func(in *drive.Inst, e *drive.Ev) {
+					var idgen id.IGenerator
+					if c.Fallback {
+						idgen = id.NewFallbackGenerator()
+					}
+					in, err := drive.New(env.Label, defs, drive.Opts{IdGen: idgen, OnTrace: func(in *drive.Inst, e *drive.Ev) {
 						if e.Kind == "Task" {
 							for _, r := range in.Pending() {
 								if r.N == e.Req {
@@ -311,7 +356,7 @@ func init() {
 			v.Nontrivial = v.Stats["ids"] > 1
 			return v
 		},
-		Rule:        "exact duplicate detection over all ids drawn: one sno generator x {1,2,4,8,16,32} goroutines x 1e6 (quick) / 5e6 (thorough) draws, twice each (a run spans many 4 ms time units of the id pool); 1..8 generators alive at once; snapshot/restore at PRNG points of the draw history (0 draws = immediately, a few, thousands, beyond the 65535-per-time-unit pool) with the restored generator's output merged with the output before the snapshot; 16/64 fallback generators created behind a barrier x rounds; flow and instance ids observed in the traces of 60 instances run 12 at a time in one program; a case is non-trivial when it compared > 1 id; distinct = descriptor hash; 'measured.ids' = ids compared",
+		Rule:        "exact duplicate detection over all ids drawn: one sno generator x {1,2,4,8,16,32} goroutines x 1e6 (quick) / 5e6 (thorough) draws, twice each (a run spans many 4 ms time units of the id pool); 1..8 generators alive at once; snapshot/restore at PRNG points of the draw history (0 draws = immediately, a few, thousands, beyond the 65535-per-time-unit pool) with the restored generator's output merged with the output before the snapshot; 16/64 fallback generators created behind a barrier x rounds; one fallback generator x {2,4,16,32} goroutines x 2e5 / 1e6 draws; flow and instance ids observed in the traces of 60 instances run 12 at a time in one program (on the default and on fallback generators); a case is non-trivial when it compared > 1 id; distinct = descriptor hash; 'measured.ids' = ids compared",
 		Assumptions: []string{"wall-clock regressions (sno's drift branch) cannot be injected and are not claimed"},
 		Batch:       2,
 		MaxShards:   6,
